@@ -237,6 +237,9 @@ def step (j : Json) : Json :=
   | "xml.encode" =>
     Json.mkObj [("ok", Json.arr ((encode F cfg I (strText j "ns") (strText j "name") (tyOf (getObj j "ty"))
       (valOf (getObj j "val"))).map nodeJson).toArray)]
+  | "xml.encodeStream" =>
+    Json.mkObj [("ok", Json.arr ((encodeStream F X cfg I (strText j "ns") (strText j "name") (tyOf (getObj j "ty"))
+      (valOf (getObj j "val"))).map nodeJson).toArray)]
   | "xml.decode" => outJson valJson (decode F X cfg I (tyOf (getObj j "ty")) (nodeOf (getObj j "doc")))
   | "conforms" => Json.mkObj [("ok", Json.bool (conforms (tyOf (getObj j "ty")) (valOf (getObj j "val"))))]
   | "hasTy" => Json.mkObj [("ok", Json.bool (hasTy I (tyOf (getObj j "ty")) (valOf (getObj j "val"))))]
